@@ -484,7 +484,9 @@ HARNESSES = {
     "lemma": dict(run=_run_lemma, replay=_replay_lemma, patch=_P, validate_every=0),
 }
 
-MANIFEST = dict(engine="symx+crosshair")
+MANIFEST = dict(engine="symx", also=["crosshair"],
+                technique="solver-based bounded checking: path-forking symbolic execution of the real Python code over z3 (round trips, agreement, dataset level) "
+                          "plus CrossHair symbolic execution of the string codec and tokens_between lemmas (run from a harness instance of the same command)")
 META = dict(
     functions=["LatticeMaze.as_tokens/_as_tokens/_as_coords_and_special_AOTP/_as_adj_list_tokens", "LatticeMaze.from_tokens/_from_tokens_AOTP/from_adj_list",
                "TargetedLatticeMaze._get_start_pos_tokens/_get_end_pos_tokens", "SolvedMaze._get_solution_tokens/from_targeted_lattice_maze",
